@@ -14,8 +14,13 @@ device : <memhex>/<noAccess>/<noWrite>/<rejW>[/<rejP>]   ranges `a+l,..` or `-`;
 ops    : joined by `;`: v/n  s/n/<val>  r/n/<buflen>  w/n/<hex>  e/n  d/n  pr/n/a/l  pw/n/a/<hex>  cc  a/n  ir/n  iw/n
          val: i<int> | f<width>.<bits> | x<hex> | b0 | b1
 answer : <results joined by ,>#<final image hex>#<access log oldest first>
+
+  c04 dyn <default|sink> <graph> <device> <steps>      (registers at explicit cache keys, `Model.CacheDyn`)
+steps  : joined by `;`: V/n/a/len  W/n/a/<hex>  R/n/a/len  cc  u        answer as above
+  c04 all <graph>                                     `allListedB` -> 0|1
 -/
 import CamVerif.Model.Cache
+import CamVerif.Model.CacheDyn
 import Driver.Util
 namespace Driver.C04
 open CamVerif CamVerif.Cache CamVerif.Wire Driver
@@ -135,6 +140,15 @@ def parseOp (s : String) : Option Op :=
   | ["iw", n] => do pure (.isWritable (← n.toNat?))
   | _ => none
 
+def parseKStep (s : String) : Option KStep :=
+  match s.splitOn "/" with
+  | ["V", n, a, l] => do pure (.value (← n.toNat?) (← a.toInt?) (← l.toNat?))
+  | ["W", n, a, d] => do pure (.write (← n.toNat?) (← a.toInt?) (← hexToBytes d))
+  | ["R", n, a, l] => do pure (.read (← n.toNat?) (← a.toInt?) (← l.toNat?))
+  | ["cc"] => some .clear
+  | ["u"] => some .skip
+  | _ => none
+
 def errName : Err → String
   | .device => "Device"
   | .notWritable => "NotWritable"
@@ -179,6 +193,21 @@ def handle : List String → String
   | ["declh", p, g, ops] =>
     match profileOf p, parseList parseNode g ";", parseList parseOp ops ";" with
     | some p, some g, some ops => if declaredForB p g ops then "1" else "0"
+    | _, _, _ => "bad-op"
+  | ["all", g] =>
+    match parseList parseNode g ";" with
+    | some g => if allListedB g then "1" else "0"
+    | none => "bad-op"
+  | ["dyn", c, g, d, steps] =>
+    match parseList parseNode g ";", parseDev d, parseList parseKStep steps ";" with
+    | some g, some d, some ks =>
+      if c == "default" then
+        let (rs, s) := runKSteps defaultCache g (initDefault g d) ks
+        answer rs s.dev
+      else if c == "sink" then
+        let (rs, s) := runKSteps sinkCache g (initSink d) ks
+        answer rs s.dev
+      else "bad-op"
     | _, _, _ => "bad-op"
   | [c, p, g, d, ops] =>
     match profileOf p, parseList parseNode g ";", parseDev d, parseList parseOp ops ";" with
